@@ -65,10 +65,23 @@ def setup_cg(cx):
     cx.assume(z3.ForAll([m_], TSeq(Match).len(matches_of(m_)) >= 0))
     graph = Obj('Graph')
     graph.__dict__['iter'] = gnodes
-    graph.attrs['nodes'] = Obj('NodeView', __getitem__=Builtin(
-        lambda e, n: Obj('attrs', get=Builtin(lambda e2, k, d=None: wrap(TBool, is_ptm(to_z3(n, GNode))) if (k == 'PTM_atom' and d is False) else
-                                              (_ for _ in ()).throw(EngineError('node.get(%r)' % (k,))), 'get')), 'graph.nodes[]'))
+    mods_of = cx.uf('mods_of', [GNode], TSeq(Glet))        # graph.nodes[n].get('modifications', []): what the atom is labelled with
+    n_ = z3.Const('nn', GNode.sort())
+    cx.assume(z3.ForAll([n_], TSeq(Glet).len(mods_of(n_)) >= 0))
+
+    def node_get(n):
+        def get(e2, k, d=None):
+            if k == 'PTM_atom' and d is False:
+                return wrap(TBool, is_ptm(to_z3(n, GNode)))
+            if k == 'modifications' and isinstance(d, Box) and d.ty is None and not d.cd:
+                return SV(TSeq(Glet), mods_of(to_z3(n, GNode)))
+            raise EngineError('node.get(%r)' % (k,))
+        return get
+    graph.attrs['nodes'] = Obj('NodeView', __getitem__=Builtin(lambda e, n: Obj('attrs', get=Builtin(node_get(n), 'get')), 'graph.nodes[]'))
     eng.methods[('Matcher', 'subgraph_isomorphisms_iter')] = lambda e, m: SV(TSeq(Match), matches_of(to_z3(m, TKey('Matcher'))))
+    # the matcher's other search (placements that need not be induced subgraphs) is something else
+    mono_of = cx.uf('mono_matches_of', [TKey('Matcher')], TSeq(Match))
+    eng.methods[('Matcher', 'subgraph_monomorphisms_iter')] = lambda e, m: SV(TSeq(Match), mono_of(to_z3(m, TKey('Matcher'))))
     eng.methods[('Match', 'keys')] = lambda e, m: Box(TSet(GNode), keys_of(to_z3(m, Match)))
     return dict(graph=graph, to_cover=cx.val('to_cover', TSet(GNode)), fragments=cx.val('fragments', TSeq(Frag)))
 
@@ -521,3 +534,99 @@ find_ptm_atoms = FunctionContract(
             ("to_see.update(molecule[orig].keys())", "pass")],
 )
 CONTRACTS.append(find_ptm_atoms)
+
+
+
+# ------------------------------------------------------------------ identify_ptms: what has to be explained, and by what
+def setup_ip(cx):
+    d = setup_cg(cx)
+    rp = cx.val('residue_ptms', TSeq(PtmAtomsG))
+    cx.spec_env['RP'] = rp
+    return dict(residue=d['graph'], residue_ptms=rp, known_ptms=d['fragments'])
+
+
+PtmAtomsG = TTuple(TSet(GNode), TSet(GNode))
+SPEC_IP = dict(SPEC_CG)
+SPEC_IP.update({
+    # the atom belongs to one of the branches of unrecognised atoms of these residues, or anchors one
+    'todo': "lambda x, J: exists(lambda j: 0 <= j and j < J and (x in RP[j][0] or x in RP[j][1]))",
+})
+identify_ptms = FunctionContract(
+    F, 'identify_ptms', 'C14', setup=setup_ip, spec_defs=SPEC_IP, spec_env=dict(GNode=GNode, Match=Match, Glet=Glet),
+    result_ty=TSeq(Cov), locals=dict(to_cover=TSet(GNode), cover=TSeq(Cov), used_mods=TSeq(Glet), residue_mods=TSeq(TSeq(Glet))),
+    allow_exc=('KeyError',),           # from _cover_graph: no cover found
+    # first pass: no unrecognised atom is labelled with a modification yet (the branch for labelled atoms holds the two assertion
+    # crashes recorded as known findings)
+    requires=["forall(lambda j, x: implies(0 <= j and j < len(RP) and x in RP[j][0], len(mods_of(x)) == 0), TInt, GNode)"],
+    ensures=[
+        # what _cover_graph is asked to explain is exactly the unrecognised atoms of these branches and their anchors; the answer
+        # is its answer: every such atom covered, an unrecognised one exactly once, nothing else touched but recognised atoms, each
+        # placement produced by its own template's matcher
+        "forall(lambda x: implies(todo(x, len(RP)), exists(lambda j: 0 <= j and j < len(result) and covers(result[j], x))), GNode)",
+        "forall(lambda x, j, k: implies(todo(x, len(RP)) and is_ptm(x) and 0 <= j and j < k and k < len(result), "
+        "   not (covers(result[j], x) and covers(result[k], x))), GNode, TInt, TInt)",
+        "forall(lambda x, j: implies(0 <= j and j < len(result) and covers(result[j], x), todo(x, len(RP)) or not is_ptm(x)), GNode, TInt)",
+        "forall(lambda j: implies(0 <= j and j < len(result), exists(lambda i, q: 0 <= i and i < len(known_ptms) and "
+        "   result[j][0] == known_ptms[i][0] and 0 <= q and q < len(matches_of(known_ptms[i][1])) and "
+        "   result[j][1] == matches_of(known_ptms[i][1])[q])))",
+    ],
+    loops={
+        'L1': LoopSpec(inv=["forall(lambda x: (x in to_cover) == todo(x, _i), GNode)", "len(cover) == 0"], modifies=['to_cover']),
+        'L1.1': LoopSpec(inv=["len(used_mods) == 0"], modifies=[]),
+        'L1.1.1': LoopSpec(inv=["len(used_mods) == 0"], modifies=[]),
+    },
+    canary=[("to_cover.update(anchors)", "pass"), ("to_cover.update(ptm_atoms)", "to_cover = set(ptm_atoms)")],
+)
+CONTRACTS.append(identify_ptms)
+
+
+
+# ------------------------------------------------------------------ allowed_ptms: the modifications that fit somewhere
+PtmG = TKey('PtmG')
+Allowed = TTuple(PtmG, TKey('Matcher'))
+
+
+def setup_ap(cx):
+    known = cx.val('KNOWN', TSeq(PtmG))                     # known_ptms.values(), in order
+    cx.spec_env['KNOWN'] = known
+    matcher_of = cx.uf('matcher_of', [PtmG], TKey('Matcher'))   # GraphMatcher(residue, ptm, node_match=ptm_node_matcher)
+    iso = cx.uf('fits_induced', [PtmG], TBool)              # ... .subgraph_is_isomorphic(): the template fits as an induced subgraph
+    mono = cx.uf('fits_loosely', [PtmG], TBool)             # ... .subgraph_is_monomorphic(): it fits when extra bonds are ignored
+    residue = Obj('residue')
+    pnm = Obj('ptm_node_matcher')
+    cx.spec_env['ptm_node_matcher'] = pnm
+
+    def graph_matcher(e, g, ptm, node_match=None, edge_match=None):
+        if g is not residue or node_match is not pnm or edge_match is not None:
+            raise EngineError('GraphMatcher built on something else')
+        pe = to_z3(ptm, PtmG)
+        m = SV(TKey('Matcher'), matcher_of(pe))
+        o = Obj('GraphMatcher', subgraph_is_isomorphic=Builtin(lambda e2: wrap(TBool, iso(pe)), 'subgraph_is_isomorphic'),
+                subgraph_is_monomorphic=Builtin(lambda e2: wrap(TBool, mono(pe)), 'subgraph_is_monomorphic'))
+        o.__dict__['ctx_key'] = m
+        return o
+    cx.spec_env['nx'] = Obj('networkx', isomorphism=Obj('isomorphism', GraphMatcher=Builtin(graph_matcher, 'GraphMatcher')))
+    return dict(residue=residue, res_ptms=Obj('res_ptms'), known_ptms=Obj('known_ptms', values=Builtin(lambda e: known, 'known_ptms.values')))
+
+
+AP_INV = [
+    "len(g_src) == len(__yielded__)",
+    "forall(lambda q: implies(0 <= q and q < len(g_src), 0 <= g_src[q] and g_src[q] < {I} and fits_induced(KNOWN[g_src[q]]) and "
+    "   __yielded__[q][0] == KNOWN[g_src[q]] and __yielded__[q][1] == matcher_of(KNOWN[g_src[q]])))",
+    "forall(lambda p, q: implies(0 <= p and p < q and q < len(g_src), g_src[p] < g_src[q]))",
+    "forall(lambda i: implies(0 <= i and i < {I} and fits_induced(KNOWN[i]), i in g_pos and 0 <= g_pos[i] and g_pos[i] < len(g_src) and "
+    "   g_src[g_pos[i]] == i))",
+]
+allowed_ptms = FunctionContract(
+    F, 'allowed_ptms', 'C14', setup=setup_ap, spec_env=dict(PtmG=PtmG), result_ty=TSeq(Allowed),
+    locals=dict(g_src=TSeq(TInt), g_pos=TMap(TInt, TInt)), ghost_at={'entry': "g_src = []\ng_pos = {}"},
+    # the candidates are, in the force field's order, exactly the modifications whose template fits somewhere in these residues as an
+    # induced subgraph under ptm_node_matcher - each with the matcher that found it
+    ensures=[x.format(I='len(KNOWN)').replace('__yielded__', 'result') for x in AP_INV],
+    loops={'L1': LoopSpec(inv=[x.format(I='_i') for x in AP_INV], modifies=['__yielded__', 'g_src', 'g_pos'],
+                          locals=dict(g_y0=TInt), ghost_pre="g_y0 = len(__yielded__)",
+                          ghost_end="if len(__yielded__) > g_y0:\n    g_src.append(_i)\n    g_pos[_i] = g_y0")},
+    canary=[("if ptm_graph_matcher.subgraph_is_isomorphic():", "if ptm_graph_matcher.subgraph_is_monomorphic():"),
+            ("yield ptm, ptm_graph_matcher", "yield ptm, None")],
+)
+CONTRACTS.append(allowed_ptms)
